@@ -16,7 +16,7 @@
    ..._partial are full statements about the handlers (all states) whose step case is not yet part of the trace proof. *)
 From Coq Require Import List NArith ZArith Bool.
 Import ListNotations.
-Require Import Base.Wire Base.PyStr C10.Model C10.Lemmas C10.Handlers C10.SrvLemmas C10.Feed C10.Inv C10.Sim C10.Agree C10.Step C10.Keys C10.Trace C10.Boundary C10.StepLate.
+Require Import Base.Wire Base.PyStr C10.Model C10.Lemmas C10.Handlers C10.SrvLemmas C10.Feed C10.Inv C10.Sim C10.Agree C10.Step C10.Keys C10.Trace C10.Boundary C10.StepLate C10.StepMode.
 
 (* ---- refutations of the simulation: concrete conformant histories outside [dom] after which the bot model
         disagrees with the server (replayed on the implementation: findings F10, F10b, F10c) ---- *)
@@ -252,3 +252,13 @@ Proof.
   - apply late_353; exact H. - apply late_324; exact H. - apply late_329; exact H. - apply late_367; exact H.
 Qed.
 Print Assumptions C10_late_replies_ignored.
+
+(* ---- list modes other than b.  ChannelState.modes holds "the modes set in the channel, with their value", excluding
+        o v h b e q and -- since the repair C10.F14 -- I: the bot claims nothing about invite-exception, ban-exception
+        and quiet LISTS, so a MODE +I/-I/+e/-e/+q/-q leaves its record of the channel untouched, for every state.
+        (Before the repair +I mask was filed as the single value modes['I'] and -I of ANY mask removed it:
+        +I m1, +I m2, -I m1 left no I although m2 is still set.) ---- *)
+Theorem C10_list_modes_not_recorded :
+  forall bc p f v, mem f LIST_MODES = true -> chan_mode1 bc (sign p, f, v) = bc.
+Proof. exact cm1_list. Qed.
+Print Assumptions C10_list_modes_not_recorded.
